@@ -187,9 +187,9 @@ Definition route_reads (r : rop) : option (list name) :=
   | RHget root _ => Some root
   | _ => None
   end.
-Definition route_writes (r : rop) : option (list name) :=
+Definition route_writes (r : rop) : option (list name * val) :=
   match r with
-  | RBase (OpSet p _) => Some p
+  | RBase (OpSet p z) => Some (p, VInt z)
   | _ => None
   end.
 
